@@ -58,6 +58,15 @@ Step(p, t) ==
 
 Next == \E p \in Nodes : \E t \in {"implicit", "dir", "leaf"} : Step(p, t)
 
+(* regression model of the defect repaired by 6aa2848 (entries beneath a non-directory were accepted): the step without *)
+(* the ancestor check.  IndInv must NOT be inductive under it (negative control of this module).                      *)
+StepUnchecked(p, t) ==
+  IF occ[p] # "none" /\ ~(occ[p] = "implicit" /\ DirLike(t)) THEN occ' = occ /\ last' = "collision"
+  ELSE /\ occ' = [q \in Nodes |-> IF q = p THEN t
+                                   ELSE IF IsAnc[<<q, p>>] /\ occ[q] = "none" THEN "implicit" ELSE occ[q]]
+       /\ last' = "ok"
+NextAsIs == \E p \in Nodes : \E t \in {"implicit", "dir", "leaf"} : StepUnchecked(p, t)
+
 TypeOK == occ \in [Nodes -> Kinds] /\ last \in {"ok", "collision", "kept"}
 
 (* C05: every ancestor of every entry is present and is a directory *)
